@@ -72,6 +72,21 @@ static std::string degenerate_polygon(int c, int npts) {
   if (st != Manifold::Error::NoError) return m.IsEmpty() ? "" : "error status but not empty";
   return m.Volume() >= 0 ? "" : "NoError with volume " + std::to_string(m.Volume());
 }
+// refine_args: v = case, kind      case 0 RefineToLength, 1 RefineToTolerance (on a smooth tetrahedron); kind 0 NaN,
+// 1 +inf, 2 -inf, 3 zero, 4 negative.  Required: returns normally (no sanitizer report), NoError, finite, and either the
+// mesh unrefined or a refinement of it (never fewer triangles)
+static std::string refine_args(int c, int kind) {
+  const double v = kind < 3 ? bad(kind) : kind == 3 ? 0.0 : -0.5;
+  alarm(120);
+  Manifold base = c == 0 ? Manifold::Cube() : Manifold::Smooth(Manifold::Tetrahedron().GetMeshGL64());
+  Manifold m = c == 0 ? base.RefineToLength(v) : base.RefineToTolerance(v);
+  alarm(0);
+  if (m.Status() != Manifold::Error::NoError) return "status " + std::to_string((int)m.Status());
+  MeshGL64 g = m.GetMeshGL64();
+  for (double x : g.vertProperties) if (!std::isfinite(x)) return "non-finite coordinate";
+  if (m.NumTri() < base.NumTri()) return "fewer triangles than the input";
+  return "";
+}
 // revolve_angle: v = angle in millidegrees
 static std::string revolve_angle(long md) {
   Polygons sq2 = {{{1, 0}, {2, 0}, {2, 1}, {1, 1}}};
@@ -139,6 +154,15 @@ int main(int argc, char** argv) {
     report_summary(1, "degenerate_polygon");
     return 0;
   }
+  if (!strcmp(mode, "run") && argc > 2 && !strcmp(argv[2], "refine_args")) {
+    auto in = parse_nums(argc > 3 ? argv[3] : "");
+    while (in.size() < 2) in.push_back(0);
+    report_current("refine_args", in);
+    auto s = refine_args((int)in[0], (int)in[1]);
+    if (!s.empty()) { report_fail("refine_args", in, s); return 1; }
+    report_summary(1, "refine_args");
+    return 0;
+  }
   if (!strcmp(mode, "run") && argc > 2 && !strcmp(argv[2], "revolve_angle")) {
     auto in = parse_nums(argc > 3 ? argv[3] : "");
     while (in.size() < 1) in.push_back(0);
@@ -182,6 +206,14 @@ int main(int argc, char** argv) {
       ++runs;
       if (!s.empty()) { report_fail("degenerate_polygon", in, s); ++badn; }
     }
+  for (int c = 0; c < 2; ++c)
+    for (int k = 0; k < 5; ++k) {
+      std::vector<long long> in = {c, k};
+      report_current("refine_args", in);
+      auto s = refine_args(c, k);
+      ++runs;
+      if (!s.empty()) { report_fail("refine_args", in, s); ++badn; }
+    }
   for (int c = 0; c < 13; ++c)
     for (int k = 0; k < 3; ++k) {
       std::vector<long long> in = {c, k};
@@ -190,6 +222,6 @@ int main(int argc, char** argv) {
       ++runs;
       if (!s.empty()) { report_fail("input_nonfinite", in, s); ++badn; }
     }
-  report_summary(runs, "ctor_nonfinite_arg,revolve_angle,degenerate_polygon,input_nonfinite");
+  report_summary(runs, "ctor_nonfinite_arg,revolve_angle,degenerate_polygon,refine_args,input_nonfinite");
   return badn ? 1 : 0;
 }
